@@ -225,7 +225,11 @@ def work_filter(job: Tuple[str, str, Tuple[str, ...]]) -> Dict[str, Any]:
             for fn in enc(n):
                 res["obligations"] += 1
                 if fn not in fa:
-                    res["inconclusive"].append(f"{res['case']}: unfiltered output has no {fn} (name scheme changed?)")
+                    if lang == "c" and re.search(rf"\b{fn}\s*\(", ha):
+                        # the header of the unfiltered output declares it: a program that calls it does not link
+                        res["violations"].append(_fv(res, f"{fn} is declared in the header but never defined in the generated source (no -F involved)", lang, subset))
+                    else:
+                        res["inconclusive"].append(f"{res['case']}: unfiltered output has no {fn} (name scheme changed?)")
                     continue
                 if n in subset:
                     if fn not in fb:
